@@ -120,7 +120,18 @@ func c08Gen(rt *rapid.T) wProg {
 			} else {
 				p.Ops = append(p.Ops, wOp{K: "set", S: s, T: "g0", A: "mode", B: ""})
 			}
-		case x < 7:
+		case x < 6:
+			// ownership handed over (offer + acceptance), then the topic is loaded again
+			heir := gInt(rt, 1, 2, "heir2")
+			for hs := 1; hs < len(p.Sess); hs++ {
+				if p.Sess[hs] == heir {
+					p.Ops = append(p.Ops, wOp{K: "set", S: 0, T: "g0", A: "given", U: heir, B: "JRWPASDO"}, wOp{K: "sub", S: hs, T: "g0"},
+						wOp{K: "set", S: hs, T: "g0", A: "mode", B: "JRWPASDO"}, wOp{K: gPick(rt, []string{"reload", "restart"}, "how2"), T: "g0"},
+						wOp{K: "get", S: 0, T: "g0", A: "desc"}, wOp{K: "get", S: hs, T: "g0", A: "sub"})
+					break
+				}
+			}
+		case x < 8:
 			// ownership offered but not (yet) accepted, then the topic is loaded again
 			p.Ops = append(p.Ops, wOp{K: "set", S: 0, T: "g0", A: "given", U: gInt(rt, 1, 2, "heir"), B: gPick(rt, []string{"JRWPASDO", "JRWPSO"}, "grant")},
 				wOp{K: gPick(rt, []string{"reload", "restart"}, "how"), T: "g0"})
